@@ -394,9 +394,31 @@ func MetaDataKVHandler(resHolder *SearchResult, attrGetter AttributeGetter, addi
 				}
 				var matches bool
 				if IsIntegerSearchOp(mch) {
-					matches = fs[i].AutoMatch || intBytesMatch(primDBVal, mch, fs[i].Raw)
+					if intPrimMatcher {
+						matches = fs[i].AutoMatch || intBytesMatch(primDBVal, mch, fs[i].Raw)
+					} else if n, err := signed256.ParseDecimal(string(primDBVal)); err == nil {
+						// plain values are iterated, so compare as numbers explicitly;
+						// non-integer values never match numeric filters
+						if matches = fs[i].AutoMatch; !matches {
+							fltInt, err := parseNumericFilterValue(fs[i])
+							if err != nil {
+								resHolder.Err = fmt.Errorf("invalid numeric filter: %w", err)
+								return false
+							}
+							matches = intMatches(n, mch, &fltInt)
+						}
+					}
 				} else {
-					checkedDBVal, fltVal, err := combineValues(attr, primDBVal, val) // TODO: deduplicate DB value preparation
+					plainDBVal := primDBVal
+					if intPrimMatcher {
+						// integers are iterated in the binary form, original value is needed here
+						var err error
+						if plainDBVal, err = attrGetter.Get(id, attr); err != nil {
+							resHolder.Err = err
+							return false
+						}
+					}
+					checkedDBVal, fltVal, err := combineValues(attr, plainDBVal, val) // TODO: deduplicate DB value preparation
 					if err != nil {
 						resHolder.Err = fmt.Errorf("invalid key in meta bucket: invalid attribute %s value: %w", attr, err)
 						return false
@@ -404,12 +426,19 @@ func MetaDataKVHandler(resHolder *SearchResult, attrGetter AttributeGetter, addi
 					matches = matchValues(checkedDBVal, mch, fltVal)
 				}
 				if !matches {
+					if i > 0 {
+						// additional filters do not define the iteration range, the only
+						// exception is an upper bound of the numeric one
+						return !intPrimMatcher || mch != object.MatchNumLT && mch != object.MatchNumLE
+					}
 					if mch != object.MatchStringNotEqual && (wasPrimMatch || mch != object.MatchNumGT) {
 						return false
 					}
 					return true
 				}
-				wasPrimMatch = true
+				if i == 0 {
+					wasPrimMatch = true
+				}
 				// TODO: attribute value can be requested, it can be collected here, or we can
 				//  detect earlier when an object goes beyond the already collected result. The
 				//  code can become even more complex. Same below
